@@ -64,7 +64,7 @@ def run_unit(name, tier, seed):
 
 def replay(c):
     if c['kind'] == 'hang':
-        return (True, 'exceeded 5 s again') if hist.hangs(c['cls'], c['witness']['ops']) else (False, 'finished within the limit')
+        return (True, 'exceeded 30 s again') if hist.hangs(c['cls'], c['witness']['ops']) else (False, 'finished within the limit')
     for k, d in judge_concrete(c['cls'], c['witness']['ops'], c['witness']):
         if k == c['kind']:
             return True, d
